@@ -3,7 +3,7 @@
    [strengthen_false]/[emit_noop]; (c) the taken block = [strengthen_true]; (e) else / no branch /
    mutually exclusive = the same lemmas ([emit_sim]).  Nested statements: mutual induction over
    stmt/block/branches ([fl_correct]); all iterations: [if_flatten_preserves]. *)
-From Coq Require Import List String Ascii QArith Qcanon ZArith Bool Arith Lia DecimalString DecimalNat.
+From Coq Require Import List String Ascii QArith Qcanon ZArith Bool Arith Lia DecimalString DecimalNat FinFun.
 From Polar Require Import Qcx Dist Syntax Sem PassGuard PassIf.
 Import ListNotations.
 Local Open Scope Qc_scope.
@@ -519,4 +519,293 @@ Section Proof.
                intros Hin. apply Hy. rewrite gvars_app. apply in_or_app. right; exact Hin.
     Qed.
   End OneIf.
+
+  (* ---------- one if-statement whose branches are already flat ---------- *)
+  Definition names_ok (k : nat) (l : list gassign) : Prop :=
+    forall y, In y (gvars l) -> is_gen y = false \/ exists j, (j < k)%nat /\ y = old_name j.
+
+  Lemma names_ok_mono k k' l : (k <= k')%nat -> names_ok k l -> names_ok k' l.
+  Proof. intros Hk H y Hy. destruct (H y Hy) as [H1|[j [Hj H1]]]; [left; exact H1 | right; exists j; split; [lia | exact H1]]. Qed.
+
+  Lemma gvars_emit mx CS Rf : forall brs NP R k,
+    gvars (emit mx CS Rf NP brs R k) = flat_map (fun cl : fbranch => gvars (snd cl)) brs.
+  Proof.
+    induction brs as [|cl brs IH]; intros NP R k; cbn [emit flat_map]; [reflexivity|].
+    destruct (extend CS (snd cl) R k) as [R' k']. rewrite gvars_app, gvars_strengthen, IH. reflexivity.
+  Qed.
+
+  Lemma emit_defaults mx CS Rf : forall brs NP R k,
+    (forall cl, In cl brs -> defaults_ok (snd cl)) -> defaults_ok (emit mx CS Rf NP brs R k).
+  Proof.
+    induction brs as [|cl brs IH]; intros NP R k H g Hg; cbn [emit] in Hg; [destruct Hg|].
+    destruct (extend CS (snd cl) R k) as [R' k']. apply in_app_or in Hg. destruct Hg as [Hg|Hg].
+    - apply in_map_iff in Hg. destruct Hg as [g0 [<- Hg0]]. cbn [strengthen ga_default ga_var].
+      apply (H cl (or_introl eq_refl)). exact Hg0.
+    - eapply IH; [|exact Hg]. intros cl' Hin. apply H. right; exact Hin.
+  Qed.
+
+  Lemma flatten_if_sim mx (items : list item) k out kf :
+    flatten_if mx (map fst items) k = (out, kf) ->
+    (forall it, In it items -> wf_vars (cvars (fst (fst it))) = true /\ defaults_ok (snd (fst it))
+        /\ sim (snd (fst it)) (snd it) /\ names_ok k (snd (fst it))) ->
+    (mx = true -> forall s, excl s (map (fun it : item => fst (fst it)) items)) ->
+    (k <= kf)%nat /\ defaults_ok out /\ names_ok kf out /\ sim out (sem_items items).
+  Proof.
+    unfold flatten_if. set (brs := map fst items). set (CS := flat_map (fun cl : fbranch => cvars (fst cl)) brs).
+    destruct (final_R CS brs [] k) as [Rf kf'] eqn:Efin. intros Heq Hit Hmx.
+    change (flat_map (fun cl : cond * list gassign => cvars (fst cl)) brs) with CS in Heq. rewrite Efin in Heq.
+    injection Heq as Ho Hkf. subst out kf'.
+    assert (Hinv : Rinv CS k Rf kf).
+    { eapply final_inv; [|exact Efin]. unfold Rinv. cbn. split; [reflexivity|]. split; [lia | intros x []]. }
+    destruct Hinv as [Ht [Hk Hkeys]].
+    assert (Hcs : forall x, In x CS -> is_gen x = false).
+    { intros x Hx. unfold CS in Hx. apply in_flat_map in Hx. destruct Hx as [cl [Hcl Hx]].
+      unfold brs in Hcl. apply in_map_iff in Hcl. destruct Hcl as [it [<- Hin]].
+      destruct (Hit it Hin) as [Hw _]. eapply wf_vars_In; eauto. }
+    assert (Htg : forall o, In o (map snd Rf) -> exists j, (k <= j < kf)%nat /\ o = old_name j).
+    { intros o Ho. rewrite Ht in Ho. apply in_map_iff in Ho. destruct Ho as [j [<- Hj]]. apply in_seq in Hj.
+      exists j. split; [lia | reflexivity]. }
+    assert (Hnd : NoDup (map snd Rf)).
+    { rewrite Ht. apply FinFun.Injective_map_NoDup; [intros a b; apply old_name_inj | apply seq_NoDup]. }
+    assert (Hng : forall x, is_gen x = false -> ~ In x (map snd Rf)).
+    { intros x Hx Hin. destruct (Htg x Hin) as [j [_ ->]]. rewrite is_gen_old in Hx. discriminate. }
+    assert (Hcin : forall it, In it items -> incl (cvars (fst (fst it))) CS).
+    { intros it Hin x Hx. unfold CS. apply in_flat_map. exists (fst it). split; [apply in_map; exact Hin | exact Hx]. }
+    split; [lia|]. split; [|split].
+    - intros g Hg. apply in_app_or in Hg. destruct Hg as [Hg|Hg].
+      + apply in_map_iff in Hg. destruct Hg as [xo [<- _]]. reflexivity.
+      + eapply emit_defaults; [|exact Hg]. intros cl Hcl. apply in_map_iff in Hcl. destruct Hcl as [it [<- Hin]].
+        apply (Hit it Hin).
+    - intros y Hy. rewrite gvars_app, gvars_emit in Hy. apply in_app_or in Hy. destruct Hy as [Hy|Hy].
+      + unfold gvars in Hy. rewrite map_map in Hy. cbn [copy_ga ga_var] in Hy.
+        destruct (Htg y Hy) as [j [Hj ->]]. right. exists j. split; [lia | reflexivity].
+      + apply in_flat_map in Hy. destruct Hy as [cl [Hcl Hy]]. apply in_map_iff in Hcl. destruct Hcl as [it [<- Hin]].
+        destruct (Hit it Hin) as [_ [_ [_ Hn]]]. assert (Hkk : (k <= kf)%nat) by lia. exact (names_ok_mono k kf _ Hkk Hn y Hy).
+    - intros s t Hag g h Hgh.
+      destruct (copies_exec Rf Hnd) with (t := t) as [t1 [HE1 [Hcp Hfr]]].
+      { intros x Hx. apply Hng. apply Hcs. apply Hkeys. exact Hx. }
+      rewrite E_exec_gas_app, HE1.
+      apply (emit_sim mx CS Rf kf s items CTrue [] k t1 Efin).
+      + intros it Hin. destruct (Hit it Hin) as [Hw [Hd [Hs Hn]]]. split; [apply Hcin; exact Hin|].
+        split; [exact Hd|]. split; [exact Hs|].
+        intros y x Hy Hx Heq. unfold rn in Heq. destruct (rlookup Rf x) as [o|] eqn:El.
+        * subst o. apply rlookup_In in El. apply (in_map snd) in El. cbn [snd] in El.
+          destruct (Htg y El) as [j [Hj Hyj]]. destruct (Hn y Hy) as [Hg|[j' [Hj' Hyj']]].
+          -- rewrite Hyj, is_gen_old in Hg. discriminate.
+          -- rewrite Hyj in Hyj'. apply old_name_inj in Hyj'. lia.
+        * subst y. apply rlookup_none in El. apply El.
+          eapply (final_complete CS brs [] k Rf kf Efin (fst it)); [apply in_map; exact Hin | exact Hx | exact Hy].
+      + intros x [].
+      + reflexivity.
+      + intros Emx. apply Hmx. exact Emx.
+      + intros x Hx. rewrite Hfr by (apply Hng; exact Hx). apply Hag. exact Hx.
+      + intros x Hx. pose proof (Hcs x Hx) as Hgx.
+        assert (Hx1 : t1 x = s x) by (rewrite Hfr by (apply Hng; exact Hgx); apply Hag; exact Hgx).
+        split; [|intros _; exact Hx1]. unfold rn. destruct (rlookup Rf x) as [o|] eqn:El; [|exact Hx1].
+        apply rlookup_In in El. rewrite (Hcp x o El). apply Hag. exact Hgx.
+      + intros t' s' Hag' Hfr'. apply Hgh; [exact Hag'|]. intros y Hy.
+        rewrite Hfr'.
+        * apply Hfr. intros Hin. apply Hy. rewrite gvars_app. apply in_or_app. left.
+          unfold gvars. rewrite map_map. exact Hin.
+        * intros Hin. apply Hy. rewrite gvars_app. apply in_or_app. right. exact Hin.
+  Qed.
+
+  (* ---------- the mutually exclusive shape ---------- *)
+  Lemma atom_const_shape x c q : atom_const x c = Some q -> c = CAtom (EVar x) Ceq (EConst q).
+  Proof.
+    destruct c as [| |a o b| | |]; cbn [atom_const]; try discriminate.
+    destruct a as [|y| | |]; try discriminate. destruct o; try discriminate. destruct b as [q'| | | |]; try discriminate.
+    destruct (var_eqb x y) eqn:E; [|discriminate]. apply var_eqb_eq in E. subst. intros H; inversion H; reflexivity.
+  Qed.
+
+  Lemma atom_consts_excl x : forall cs qs, atom_consts x cs = Some qs -> distinctb qs = true -> forall s, excl s cs.
+  Proof.
+    induction cs as [|c cs IH]; intros qs Hq Hd s; cbn [excl]; [exact I|].
+    cbn [atom_consts] in Hq. destruct (atom_const x c) as [q|] eqn:Ec; [|discriminate].
+    destruct (atom_consts x cs) as [qs'|] eqn:Ecs; [|discriminate]. inversion Hq; subst qs. clear Hq.
+    cbn [distinctb] in Hd. apply andb_true_iff in Hd. destruct Hd as [Hd1 Hd2]. split; [|eapply IH; eauto].
+    apply atom_const_shape in Ec. subst c. cbn [holds eval cop_holds]. intros Hc c' Hin.
+    apply Qc_eqb_true in Hc.
+    assert (Hall : forall cs0 qs0, atom_consts x cs0 = Some qs0 -> In c' cs0 -> exists q', c' = CAtom (EVar x) Ceq (EConst q') /\ In q' qs0).
+    { induction cs0 as [|c0 cs0 IH0]; intros qs0 H0 Hin0; [destruct Hin0|].
+      cbn [atom_consts] in H0. destruct (atom_const x c0) as [q0|] eqn:E0; [|discriminate].
+      destruct (atom_consts x cs0) as [qs1|] eqn:E1; [|discriminate]. inversion H0; subst qs0.
+      destruct Hin0 as [->|Hin0].
+      - exists q0. split; [apply atom_const_shape; exact E0 | left; reflexivity].
+      - destruct (IH0 qs1 eq_refl Hin0) as [q' [H1 H2]]. exists q'. split; [exact H1 | right; exact H2]. }
+    destruct (Hall cs qs' Ecs Hin) as [q' [-> Hq']]. cbn [holds eval cop_holds].
+    destruct (Qc_eqb (s x) q') eqn:E; [|reflexivity]. apply Qc_eqb_true in E.
+    apply negb_true_iff in Hd1. rewrite <- Hd1. symmetry. apply existsb_exists. exists q'. split; [exact Hq'|].
+    rewrite <- Hc, <- E. apply Qc_eqb_refl.
+  Qed.
+
+  Lemma mutex_conds_excl cs : mutex_conds cs = true -> forall s, excl s cs.
+  Proof.
+    unfold mutex_conds. destruct cs as [|c cs]; [discriminate|].
+    destruct c as [| |a o b| | |]; try discriminate. destruct a as [|x| | |]; try discriminate.
+    destruct o; try discriminate. destruct b as [q| | | |]; try discriminate.
+    intros H. apply andb_true_iff in H. destruct H as [_ H].
+    destruct (atom_consts x (CAtom (EVar x) Ceq (EConst q) :: cs)) as [qs|] eqn:E; [|discriminate].
+    eapply atom_consts_excl; eauto.
+  Qed.
+
+  (* ---------- nested statements: TreeTransformer's bottom-up traversal ---------- *)
+  Definition res_ok (k : nat) (l : list gassign) (k' : nat) (D : state -> dist state) : Prop :=
+    (k <= k')%nat /\ defaults_ok l /\ names_ok k' l /\ sim l D.
+  Definition P_stmt (st : stmt) : Prop := forall k l k',
+    fl_stmt k st = Some (l, k') -> wf_vars (stmt_vars st) = true -> res_ok k l k' (exec_stmt law st).
+  Definition P_block (b : block) : Prop := forall k l k',
+    fl_block k b = Some (l, k') -> wf_vars (block_vars b) = true -> res_ok k l k' (exec_block law b).
+  Definition P_branches (bs : branches) : Prop := forall k brs k',
+    fl_branches k bs = Some (brs, k') -> wf_vars (branches_vars bs) = true ->
+    (k <= k')%nat /\ exists items : list item,
+      map fst items = brs /\ map (fun it : item => fst (fst it)) items = br_conds bs
+      /\ (forall it, In it items -> wf_vars (cvars (fst (fst it))) = true /\ defaults_ok (snd (fst it))
+            /\ sim (snd (fst it)) (snd it) /\ names_ok k' (snd (fst it)))
+      /\ forall s, first_match items s = exec_branches law bs s.
+
+  Lemma sim_ext l D D' : (forall s, D s = D' s) -> sim l D -> sim l D'.
+  Proof. intros He H s t Hag g h Hgh. rewrite <- He. apply H; assumption. Qed.
+
+  Lemma first_match_app items it s :
+    first_match (items ++ [it]) s =
+    match first_match items s with Some d => Some d | None => if holds (fst (fst it)) s then Some (snd it s) else None end.
+  Proof.
+    induction items as [|i items IH]; cbn [app first_match]; [reflexivity|].
+    destruct (holds (fst (fst i)) s); [reflexivity | exact IH].
+  Qed.
+
+  Lemma exec_stmt_assign x r s : exec_stmt law (SAssign x r) s = bind (sample law r s) (fun v => ret (upd s x v)).
+  Proof. reflexivity. Qed.
+  Lemma exec_stmt_if bs els s :
+    exec_stmt law (SIf bs els) s = match exec_branches law bs s with Some d => d | None => exec_block law els s end.
+  Proof. reflexivity. Qed.
+  Lemma exec_block_nil s : exec_block law BNil s = ret s.
+  Proof. reflexivity. Qed.
+  Lemma exec_block_cons st b s : exec_block law (BCons st b) s = bind (exec_stmt law st s) (exec_block law b).
+  Proof. reflexivity. Qed.
+  Lemma exec_branches_cons c b bs s :
+    exec_branches law (BrCons c b bs) s = if holds c s then Some (exec_block law b s) else exec_branches law bs s.
+  Proof. reflexivity. Qed.
+
+  Lemma fl_correct : (forall st, P_stmt st) /\ (forall b, P_block b) /\ (forall bs, P_branches bs).
+  Proof.
+    apply stmt_block_branches_ind.
+    - (* SAssign *)
+      intros x r k l k' H Hwf. cbn [fl_stmt] in H. inversion H; subst l k'. clear H.
+      cbn [stmt_vars] in Hwf.
+      split; [lia|]. split; [|split].
+      + intros g [<-|[]]. reflexivity.
+      + intros y [<-|[]]. left. cbn [ga_var]. eapply wf_vars_In; [exact Hwf | left; reflexivity].
+      + intros s t Hag g h Hgh.
+        rewrite E_exec_gas_cons, E_exec_ga, exec_stmt_assign. cbn [ga_cond ga_rhs ga_var holds]. rewrite E_bind.
+        rewrite (sample_ext r s t).
+        2:{ intros y Hy. apply Hag. eapply wf_vars_In; [exact Hwf | right; exact Hy]. }
+        apply E_ext. intros v. cbn [exec_gas]. rewrite !E_ret. apply Hgh.
+        * intros y Hy. unfold upd. destruct (var_eqb y x); [reflexivity | apply Hag; exact Hy].
+        * intros y Hy. apply upd_other. intros ->. apply Hy. left; reflexivity.
+    - (* SSimult *)
+      intros l k l' k' H. cbn [fl_stmt] in H. discriminate.
+    - (* SIf *)
+      intros bs IHbs els IHels k l k' H Hwf. cbn [fl_stmt] in H.
+      destruct (fl_branches k bs) as [[brs k1]|] eqn:E1; [|discriminate].
+      destruct (fl_block k1 els) as [[le k2]|] eqn:E2; [|discriminate]. inversion H as [Hfl]. clear H.
+      cbn [stmt_vars] in Hwf. rewrite wf_vars_app in Hwf. apply andb_true_iff in Hwf. destruct Hwf as [Hwf1 Hwf2].
+      destruct (IHbs k brs k1 E1 Hwf1) as [Hk1 [items [Hmap [Hconds [Hitems Hfm]]]]].
+      destruct (IHels k1 le k2 E2 Hwf2) as [Hk2 [Hde [Hne Hse]]].
+      set (items' := match els with BNil => items | _ => items ++ [((CTrue, le), exec_block law els)] end).
+      assert (Hmap' : map fst items' = match els with BNil => brs | _ => brs ++ [(CTrue, le)] end).
+      { unfold items'. destruct els; [exact Hmap | rewrite map_app; apply f_equal2; [exact Hmap | reflexivity]]. }
+      rewrite <- Hmap' in Hfl.
+      destruct (flatten_if_sim (mutex_shape bs els) items' k2 l k' Hfl) as [Hk' [Hd [Hn Hs]]].
+      + assert (Hold : forall it, In it items -> wf_vars (cvars (fst (fst it))) = true /\ defaults_ok (snd (fst it))
+            /\ sim (snd (fst it)) (snd it) /\ names_ok k2 (snd (fst it))).
+        { intros it Hin. destruct (Hitems it Hin) as [H1 [H2 [H3 H4]]]. repeat split; try assumption.
+          eapply names_ok_mono; [exact Hk2 | exact H4]. }
+        unfold items'. destruct els; [exact Hold|]; intros it Hin; apply in_app_or in Hin;
+          (destruct Hin as [Hin|[<-|[]]]; [apply Hold; exact Hin | cbn [fst snd]; repeat split; assumption]).
+      + intros Emx s. unfold mutex_shape in Emx. unfold items'. destruct els; try discriminate.
+        rewrite Hconds. apply mutex_conds_excl. exact Emx.
+      + split; [lia|]. split; [exact Hd|]. split; [exact Hn|].
+        eapply sim_ext; [|exact Hs]. intros s. rewrite exec_stmt_if. unfold sem_items, items'.
+        destruct els as [|st0 b0].
+        * rewrite Hfm, exec_block_nil. reflexivity.
+        * rewrite first_match_app, Hfm. cbn [fst snd holds]. destruct (exec_branches law bs s); reflexivity.
+    - (* BNil *)
+      intros k l k' H _. cbn [fl_block] in H. inversion H; subst l k'.
+      split; [lia|]. split; [intros g []|]. split; [intros y []|].
+      intros s t Hag g h Hgh. rewrite exec_block_nil. cbn [exec_gas]. rewrite !E_ret. apply Hgh; [exact Hag | intros y _; reflexivity].
+    - (* BCons *)
+      intros st IHst b IHb k l k' H Hwf. cbn [fl_block] in H.
+      destruct (fl_stmt k st) as [[l1 k1]|] eqn:E1; [|discriminate].
+      destruct (fl_block k1 b) as [[l2 k2]|] eqn:E2; [|discriminate]. inversion H; subst l k'. clear H.
+      cbn [block_vars] in Hwf. rewrite wf_vars_app in Hwf. apply andb_true_iff in Hwf. destruct Hwf as [Hwf1 Hwf2].
+      destruct (IHst k l1 k1 E1 Hwf1) as [Hk1 [Hd1 [Hn1 Hs1]]].
+      destruct (IHb k1 l2 k2 E2 Hwf2) as [Hk2 [Hd2 [Hn2 Hs2]]].
+      split; [lia|]. split; [|split].
+      + intros g Hg. apply in_app_or in Hg. destruct Hg; [apply Hd1 | apply Hd2]; assumption.
+      + intros y Hy. rewrite gvars_app in Hy. apply in_app_or in Hy. destruct Hy as [Hy|Hy].
+        * exact (names_ok_mono k1 k2 _ Hk2 Hn1 y Hy).
+        * apply Hn2; exact Hy.
+      + intros s t Hag g h Hgh. rewrite E_exec_gas_app, exec_block_cons, E_bind.
+        apply Hs1; [exact Hag|]. intros t1 s1 Hag1 Hfr1.
+        apply Hs2; [exact Hag1|]. intros t2 s2 Hag2 Hfr2. apply Hgh; [exact Hag2|].
+        intros y Hy. rewrite gvars_app in Hy. rewrite Hfr2, Hfr1; [reflexivity| |]; intros Hin; apply Hy; apply in_or_app; auto.
+    - (* BrNil *)
+      intros k brs k' H _. cbn [fl_branches] in H. inversion H; subst brs k'.
+      split; [lia|]. exists []. split; [reflexivity|]. split; [reflexivity|]. split; [intros it0 [] | intros s; reflexivity].
+    - (* BrCons *)
+      intros c b IHb bs IHbs k brs k' H Hwf. cbn [fl_branches] in H.
+      destruct (fl_block k b) as [[l k1]|] eqn:E1; [|discriminate].
+      destruct (fl_branches k1 bs) as [[brs0 k2]|] eqn:E2; [|discriminate]. inversion H; subst brs k'. clear H.
+      cbn [branches_vars] in Hwf. rewrite !wf_vars_app in Hwf. apply andb_true_iff in Hwf. destruct Hwf as [Hwc Hwf].
+      apply andb_true_iff in Hwf. destruct Hwf as [Hwb Hwbs].
+      destruct (IHb k l k1 E1 Hwb) as [Hk1 [Hd [Hn Hs]]].
+      destruct (IHbs k1 brs0 k2 E2 Hwbs) as [Hk2 [items [Hmap [Hconds [Hitems Hfm]]]]].
+      split; [lia|]. exists (((c, l), exec_block law b) :: items).
+      split; [cbn [map fst]; rewrite Hmap; reflexivity|].
+      split; [cbn [map fst br_conds]; rewrite Hconds; reflexivity|]. split.
+      + intros it [<-|Hin]; [|apply Hitems; exact Hin]. cbn [fst snd]. repeat split; try assumption.
+        eapply names_ok_mono; [exact Hk2 | exact Hn].
+      + intros s. rewrite exec_branches_cons. cbn [first_match fst snd]. rewrite Hfm. reflexivity.
+  Qed.
+
+  (* ---------- the theorems ---------- *)
+  (* observation functions that do not read generated variables *)
+  Definition blind (f : state -> Qc) : Prop := forall s t, agree s t -> f t = f s.
+
+  Theorem if_flatten_block_preserves k b l k' :
+    if_flatten k b = Some (l, k') -> wf_block b = true ->
+    forall s t, agree s t -> forall f, blind f ->
+      E (exec_gas law l t) f = E (exec_block law b s) f.
+  Proof.
+    intros H Hwf s t Hag f Hf. destruct fl_correct as [_ [Hb _]].
+    destruct (Hb b k l k' H Hwf) as [_ [_ [_ Hs]]]. apply Hs; [exact Hag|].
+    intros t' s' Hag' _. apply Hf. exact Hag'.
+  Qed.
+
+  Lemma if_flatten_rel k p fp k' :
+    if_flatten_prog k p = Some (fp, k') -> wf_prog p = true ->
+    forall n s0 t0, agree s0 t0 -> forall g h, (forall s t, agree s t -> g t = h s) ->
+      E (frun law fp n t0) g = E (run law p n s0) h.
+  Proof.
+    unfold if_flatten_prog, wf_prog. intros H Hwf.
+    destruct (p_guard p) eqn:Eg; try discriminate.
+    destruct (if_flatten k (p_init p)) as [[li k1]|] eqn:Ei; [|discriminate].
+    destruct (if_flatten k1 (p_body p)) as [[lb k2]|] eqn:Eb; [|discriminate]. inversion H; subst fp k'. clear H.
+    apply andb_true_iff in Hwf. destruct Hwf as [Hwi Hwb].
+    destruct fl_correct as [_ [Hb _]].
+    destruct (Hb _ _ _ _ Ei Hwi) as [_ [_ [_ Hsi]]]. destruct (Hb _ _ _ _ Eb Hwb) as [_ [_ [_ Hsb]]].
+    induction n as [|n IH]; intros s0 t0 Hag g h Hgh; cbn [frun run fp_init].
+    - apply Hsi; [exact Hag|]. intros t' s' Hag' _. apply Hgh. exact Hag'.
+    - rewrite !E_bind. apply IH; [exact Hag|]. intros s t Hst.
+      unfold fstep, iter. cbn [fp_body]. rewrite Eg. cbn [holds].
+      apply Hsb; [exact Hst|]. intros t' s' Hag' _. apply Hgh. exact Hag'.
+  Qed.
+
+  Theorem if_flatten_preserves k p fp k' :
+    if_flatten_prog k p = Some (fp, k') -> wf_prog p = true ->
+    forall n s0 t0, agree s0 t0 -> forall f, blind f ->
+      E (frun law fp n t0) f = E (run law p n s0) f.
+  Proof. intros H Hwf n s0 t0 Hag f Hf. eapply if_flatten_rel; eauto. Qed.
 End Proof.
